@@ -28,6 +28,27 @@ type EntityStreamParser struct {
 	processingContext     bool
 }
 
+// readNamespaces copies the "namespaces" object of a context into the local
+// prefix map; anything but string -> string is a parse error.
+func (esp *EntityStreamParser) readNamespaces(context map[string]interface{}) error {
+	raw, ok := context["namespaces"]
+	if !ok || raw == nil {
+		return nil
+	}
+	namespaces, ok := raw.(map[string]interface{})
+	if !ok {
+		return errors.New("parsing error: context namespaces must be an object")
+	}
+	for k, v := range namespaces {
+		expansion, ok := v.(string)
+		if !ok {
+			return errors.New("parsing error: namespace expansion of prefix " + k + " must be a string")
+		}
+		esp.localNamespaces[k] = expansion
+	}
+	return nil
+}
+
 func NewEntityStreamParser(store *Store) *EntityStreamParser {
 	esp := &EntityStreamParser{}
 	esp.store = store
@@ -77,12 +98,15 @@ func (esp *EntityStreamParser) ParseTransaction(reader io.Reader) (*Transaction,
 		return nil, errors.New("parsing error: Unable to decode context " + err.Error())
 	}
 
-	for k, v := range context["namespaces"].(map[string]interface{}) {
-		esp.localNamespaces[k] = v.(string)
+	if err = esp.readNamespaces(context); err != nil {
+		return nil, err
 	}
 
 	for {
-		t, _ = decoder.Token()
+		t, err = decoder.Token()
+		if err != nil {
+			return nil, errors.New("parsing error: Unable to read next token " + err.Error())
+		}
 		delimVal, isDelim := t.(json.Delim)
 		if isDelim {
 			if delimVal.String() == "}" {
@@ -91,7 +115,10 @@ func (esp *EntityStreamParser) ParseTransaction(reader io.Reader) (*Transaction,
 				return nil, errors.New("parsing error: Unexpected delimiter: " + delimVal.String())
 			}
 		} else {
-			datasetName := t.(string)
+			datasetName, ok := t.(string)
+			if !ok {
+				return nil, errors.New("parsing error: expected dataset name")
+			}
 
 			// read [
 			t, err = decoder.Token()
@@ -154,8 +181,8 @@ func (esp *EntityStreamParser) ParseStream(reader io.Reader, emitEntity func(*En
 	}
 
 	if context["id"] == "@context" {
-		for k, v := range context["namespaces"].(map[string]interface{}) {
-			esp.localNamespaces[k] = v.(string)
+		if err = esp.readNamespaces(context); err != nil {
+			return err
 		}
 	} else {
 		return errors.New("first entity in array must be a context")
@@ -222,11 +249,15 @@ func (esp *EntityStreamParser) parseEntity(decoder *json.Decoder) (*Entity, erro
 					return nil, errors.New("unable to read token of id value " + err2.Error())
 				}
 
-				if val.(string) == "@continuation" {
+				idVal, ok := val.(string)
+				if !ok {
+					return nil, errors.New("id value must be a string")
+				}
+				if idVal == "@continuation" {
 					e.ID = "@continuation"
 					isContinuation = true
 				} else {
-					nsID, err2 := esp.store.GetNamespacedIdentifier(val.(string), esp.localNamespaces)
+					nsID, err2 := esp.store.GetNamespacedIdentifier(idVal, esp.localNamespaces)
 					if err2 != nil {
 						return nil, err2
 					}
@@ -237,14 +268,22 @@ func (esp *EntityStreamParser) parseEntity(decoder *json.Decoder) (*Entity, erro
 				if err2 != nil {
 					return nil, errors.New("unable to read token of recorded value " + err2.Error())
 				}
-				e.Recorded = uint64(val.(float64))
+				recorded, ok := val.(float64)
+				if !ok {
+					return nil, errors.New("recorded value must be a number")
+				}
+				e.Recorded = uint64(recorded)
 
 			case "deleted":
 				val, err2 := decoder.Token()
 				if err2 != nil {
 					return nil, errors.New("unable to read token of deleted value " + err2.Error())
 				}
-				e.IsDeleted = val.(bool)
+				deleted, ok := val.(bool)
+				if !ok {
+					return nil, errors.New("deleted value must be a boolean")
+				}
+				e.IsDeleted = deleted
 
 			case "props":
 				e.Properties, err = esp.parseProperties(decoder)
